@@ -940,6 +940,24 @@ def lim4(run):
                 # given the cap (an expression of BIGINT_MAX_BITS), and the helper answers Ok only on the `below the cap` edge of a
                 # comparison of operand bits with that parameter and reports on the other
                 ok = bool(prim_sites) and all(_cap_helper_guard(run, f, pb) for pb in prim_sites)
+            # (3) there is no other way to a result: every `Ok` the function itself builds lies behind the same test
+            if ok and cmp_dest is not None:
+                from rules_tab import value_depends_on as _vdo
+                from rules_fix import reach_from as _rf
+                okb = [bi for bi, si, st in f.stmts() if st["k"] == "assign" and st["place"]["l"] == 0 and not st["place"]["p"] and st["rv"]["k"] == "agg" and st["rv"].get("variant") == "Ok"]
+                for pb in okb:
+                    g_ = False
+                    for b in f.dominators().get(pb, ()):
+                        t = f.blocks[b]["term"]
+                        if t["k"] != "switch" or b == pb or op_local(t["discr"]) is None:
+                            continue
+                        root = f.copy_root(op_local(t["discr"]))
+                        dep = root == cmp_dest or _vdo(f, t["discr"], cmp_dest) or any(
+                            d[0] == "stmt" and d[3]["rv"]["k"] == "use" and _vdo(f, d[3]["rv"]["op"], cmp_dest) for d in f.full_defs(root))
+                        if dep and any(any(p_ in _rf(f, s_) for p_ in pushes) and pb not in _rf(f, s_) for s_ in f.succs(b)):
+                            g_ = True
+                    if not g_ and not _cap_helper_guard(run, f, pb):
+                        run.violation(R, key + "|early-result", f.loc(), "BigInt::%s builds a result on a path that has not passed the test against BIGINT_MAX_BITS (a fast path in front of the magnitude check): `1 << 0x1000000000000` allocates until memory is exhausted instead of reporting `value is out of supported range`" % name)
             run.check(ok, R, key, f.loc(), "BigInt::%s tests the operand sizes against BIGINT_MAX_BITS (and reports) before the num-bigint operation" % name,
                       "BigInt::%s performs the num-bigint operation without a dominating test against BIGINT_MAX_BITS: results could grow without bound (memory exhaustion instead of `value is out of supported range`)" % name)
         elif kind == "zero":
